@@ -220,7 +220,8 @@ pub const PARTIAL_OBJECTS: [&str; 22] = [
     "{@meta tag: 1, @type: 7}",
 ];
 
-pub const OPERATOR_FORMS: [&str; 36] = [
+pub const OPERATOR_FORMS: [&str; 46] = [
+    "'{a0:3}'", "'{a0:12}'", "'{a0:^9.1}'", "'{a0:é<6}'", "'{a0:08.3}'", "'{a0:x}'", "'{a0:e}'", "'{a0:>40.0?}'", "'{a0:😀^5}{a1:2}'", "'{a0:.100}'",
     "a0 + a1", "a0 - a1", "a0 * a1", "a0 / a1", "a0 % a1", "a0 ^ a1", "a0 < a1", "a0 <= a1", "a0 > a1", "a0 >= a1", "a0 == a1", "a0 != a1",
     "x = a0\n  x += a1\n  x", "x = a0\n  x -= a1\n  x", "x = a0\n  x *= a1\n  x", "x = a0\n  x /= a1\n  x", "x = a0\n  x %= a1\n  x", "x = a0\n  x ^= a1\n  x",
     "-a0", "not a0", "size a0", "a0[a1]", "a0[0]", "x = a0\n  x[0] = a1\n  x", "a0.foo", "x = a0\n  x.foo = a1\n  x", "a0(a1)", "a0()",
@@ -429,11 +430,13 @@ fn run_shard(ctx: &mut Ctx) {
     let mut ototal: u64 = 0;
     for a in operands.iter() {
         for b in operands.iter() {
-            // pairs of two plain pool values are covered by the texts; one side is an object here
-            if !(a.contains('@') || b.contains('@')) {
-                continue;
-            }
+            // pairs of two plain pool values are covered by the texts; one side is an object here,
+            // except for the interpolation-format forms, which run for every first operand once
+            let with_object = a.contains('@') || b.contains('@');
             for form in forms.iter() {
+                if !with_object && !(form.starts_with("'{a0:") && std::ptr::eq(b, &operands[0])) {
+                    continue;
+                }
                 ototal += 1;
                 oidx += 1;
                 if !ctx.mine(oidx) || ctx.too_many_failures() {
